@@ -712,6 +712,10 @@ func (e *Env) selectField(x SVal, name string) SVal {
 			ft := s.Field(i).Type()
 			if _, ok := isStruct(ft); ok {
 				cur = SVal{t: vc.embTermSpec(e, S, i, cur.t), typ: types.NewPointer(ft), sort: "Int", st: cur.st, lval: true}
+			} else if a, ok := ft.Underlying().(*types.Array); ok {
+				// array-typed field: stored in the element heap at the field's address
+				hn, hs := vc.d.elemHeap(a.Elem())
+				cur = SVal{t: fmt.Sprintf("(select %s %s)", vc.heap(e.stOf(cur), hn, hs), vc.embTermSpec(e, S, i, cur.t)), typ: ft, sort: vc.d.sortOf(ft), st: cur.st}
 			} else {
 				hn, hs := vc.d.fieldHeap(S, i)
 				cur = SVal{t: fmt.Sprintf("(select %s %s)", vc.heap(e.stOf(cur), hn, hs), cur.t), typ: ft, sort: vc.d.sortOf(ft), st: cur.st}
@@ -719,7 +723,7 @@ func (e *Env) selectField(x SVal, name string) SVal {
 				// a reference stored in the heap of a state was allocated before that state
 				switch ft.Underlying().(type) {
 				case *types.Slice:
-					e.addSide(fmt.Sprintf("(< (s-arr %s) %s)", cur.t, e.stOf(cur).alloc), "")
+					e.addSide(fmt.Sprintf("(< (base (s-arr %s)) %s)", cur.t, e.stOf(cur).alloc), "")
 				case *types.Pointer, *types.Map:
 					e.addSide(fmt.Sprintf("(< (base %s) %s)", cur.t, e.stOf(cur).alloc), "")
 				}
@@ -1052,6 +1056,11 @@ func (e *Env) evalCall(n *ECall) SVal {
 	case "arrof":
 		v := e.eval(n.Args[0])
 		return mathInt("(s-arr " + v.t + ")")
+	case "arrfresh":
+		// arrfresh(s, a): the backing array of slice s was allocated at or after allocation mark a
+		v := e.eval(n.Args[0])
+		a := e.evalInt(n.Args[1])
+		return mathBool(fmt.Sprintf("(>= (base (s-arr %s)) %s)", v.t, a))
 	case "offof":
 		v := e.eval(n.Args[0])
 		return mathInt("(s-off " + v.t + ")")
@@ -1118,7 +1127,7 @@ func (e *Env) evalCall(n *ECall) SVal {
 		if v.typ != nil {
 			if _, ok := v.typ.Underlying().(*types.Slice); ok {
 				t = "(s-arr " + v.t + ")"
-				return mathBool(fmt.Sprintf("(and (>= %s %s) (< %s %s))", t, e.old.alloc, t, e.cur.alloc))
+				return mathBool(fmt.Sprintf("(and (>= (base %s) %s) (< (base %s) %s))", t, e.old.alloc, t, e.cur.alloc))
 			}
 		}
 		return mathBool(fmt.Sprintf("(and (>= (base %s) %s) (< (base %s) %s) (= (base %s) %s) (= (kind %s) 0))", t, e.old.alloc, t, e.cur.alloc, t, t, t))
@@ -1616,6 +1625,10 @@ func (e *Env) evalLocs(x Expr) []modLoc {
 			// all fields of the embedded struct
 			return e.structLocs(vc.embTermSpec(e, S, i, cur.t), ft)
 		}
+		if a, ok := ft.Underlying().(*types.Array); ok {
+			hn, hs := vc.d.elemHeap(a.Elem())
+			return []modLoc{{heap: hn, hsort: hs, key: vc.embTermSpec(e, S, i, cur.t)}}
+		}
 		hn, hs := vc.d.fieldHeap(S, i)
 		return []modLoc{{heap: hn, hsort: hs, key: cur.t}}
 	case *EIndex:
@@ -1705,6 +1718,9 @@ func (e *Env) structLocs(ref string, T types.Type) []modLoc {
 		ft := s.Field(i).Type()
 		if _, ok := isStruct(ft); ok {
 			res = append(res, e.structLocs(vc.embTermSpec(e, T, i, ref), ft)...)
+		} else if a, ok := ft.Underlying().(*types.Array); ok {
+			hn, hs := vc.d.elemHeap(a.Elem())
+			res = append(res, modLoc{heap: hn, hsort: hs, key: vc.embTermSpec(e, T, i, ref)})
 		} else {
 			hn, hs := vc.d.fieldHeap(T, i)
 			res = append(res, modLoc{heap: hn, hsort: hs, key: ref})
